@@ -204,14 +204,28 @@ type plan struct {
 	kinds  [][]string // per dynamic unit: fragment kinds
 }
 
-func encSentinel(kind string) string {
+// encSentinel: how the benign value shows in a fragment of the given kind; in a
+// split position (n pieces) every piece is the sentinel and the adjacent
+// interpolations inside a literal form ONE fragment.
+func encSentinel(kind string, n int) string {
 	if kind == "bare" || kind == "jsonattr" {
 		return `"` + Sentinel + `"`
 	}
 	if kind == "json" {
 		return `"` + Sentinel + `"` + "\n"
 	}
-	return Sentinel
+	return strings.Repeat(Sentinel, max(1, n))
+}
+
+// benignSpec is the benign value of a position.
+func benignSpec(name string) Spec {
+	switch nPieces(name) {
+	case 2:
+		return MkSplit(Sentinel+Sentinel, len(Sentinel))
+	case 3:
+		return MkSplit(Sentinel+Sentinel+Sentinel, len(Sentinel), 2*len(Sentinel))
+	}
+	return MkSpec("str", Sentinel)
 }
 
 func mkPlan(p *pos, doc []byte) (*plan, error) {
@@ -229,12 +243,12 @@ func mkPlan(p *pos, doc []byte) (*plan, error) {
 		var pieces, kinds []string
 		for fi < len(p.Frags) {
 			k := p.Frags[fi]
-			i := strings.Index(rest, encSentinel(k))
+			i := strings.Index(rest, encSentinel(k, nPieces(p.Name)))
 			if i < 0 {
 				break
 			}
 			pieces, kinds = append(pieces, rest[:i]), append(kinds, k)
-			rest = rest[i+len(encSentinel(k)):]
+			rest = rest[i+len(encSentinel(k, nPieces(p.Name))):]
 			fi++
 		}
 		if strings.Contains(rest, Sentinel) || len(kinds) == 0 {
@@ -387,7 +401,8 @@ func normJSON(v any) any {
 }
 
 // want builds the expected record of one dynamic unit.
-func want(tmpl string, v any) (any, string, error) {
+func want(tmpl string, sp Spec) (any, string, error) {
+	v := sp.Go()
 	vj, err := json.Marshal(v)
 	if err != nil {
 		return nil, "", err
@@ -397,7 +412,14 @@ func want(tmpl string, v any) (any, string, error) {
 		lit = s
 	}
 	lj, _ := json.Marshal(lit)
-	txt := strings.NewReplacer("$V", string(vj), "$L", string(lj), "$S", string(lj[1:len(lj)-1])).Replace(tmpl) // single pass: substituted text is not rescanned
+	// $J: the pieces of a cut string, each JSON-encoded on its own (a cut inside a
+	// multi-byte sequence makes each piece invalid UTF-8 by itself), then joined
+	joined := ""
+	for _, pc := range sp.Pieces(len(sp.Cuts) + 1) {
+		joined += strings.ToValidUTF8(pc.(string), "\ufffd")
+	}
+	jj, _ := json.Marshal(joined)
+	txt := strings.NewReplacer("$V", string(vj), "$L", string(lj), "$S", string(lj[1:len(lj)-1]), "$J", string(jj)).Replace(tmpl) // single pass: substituted text is not rescanned
 	var w any
 	if err := json.Unmarshal([]byte(txt), &w); err != nil {
 		return nil, "", fmt.Errorf("bad expectation %s: %v", txt, err)
@@ -429,6 +451,7 @@ type job struct {
 	I int    `json:"i"`
 	V Spec   `json:"v"`
 	K string `json:"k"`
+	L int    `json:"l"`
 }
 
 // Case is one (position, value).
@@ -481,9 +504,15 @@ func build(c *core.Ctx) *engine {
 	}
 	e.pkg, e.bin = p, bin
 	wg.Wait()
-	docs, errs := e.render([]Spec{MkSpec("str", Sentinel)}, "")
-	if docs == nil {
+	// benign renderings: job n-1 carries the benign value of the positions with n pieces (0 -> job 0)
+	docs3, errs3 := e.render([]Spec{benignSpec("bare"), benignSpec("split_sq2"), benignSpec("split_sq3")}, "", 16)
+	if docs3 == nil {
 		core.Infra("driver returned no benign rendering")
+	}
+	docs, errs := [][][]byte{make([][]byte, len(positions))}, [][]string{make([]string, len(positions))}
+	for i := range positions {
+		k := max(0, nPieces(positions[i].Name)-1)
+		docs[0][i], errs[0][i] = docs3[k][i], errs3[k][i]
 	}
 	// A position whose benign rendering does not even contain the expected
 	// fragments, or where the benign string itself fails the pipeline, is a
@@ -504,7 +533,7 @@ func build(c *core.Ctx) *engine {
 	var cs []Case
 	for i := range positions {
 		if e.plans[i] != nil {
-			cs = append(cs, Case{Pos: positions[i].Name, V: MkSpec("str", Sentinel)})
+			cs = append(cs, Case{Pos: positions[i].Name, V: benignSpec(positions[i].Name)})
 		}
 	}
 	for i, m := range e.judge(cs) {
@@ -518,11 +547,20 @@ func build(c *core.Ctx) *engine {
 	return e
 }
 
-func (e *engine) render(vals []Spec, only string) ([][][]byte, [][]string) {
+// render runs the driver: with only == "" every job renders the positions that
+// fit its value and whose sampling class is <= levels[i] (one level for all jobs
+// if a single one is given).
+func (e *engine) render(vals []Spec, only string, levels ...int) ([][][]byte, [][]string) {
 	var in strings.Builder
 	enc := json.NewEncoder(&in)
 	for i, v := range vals {
-		_ = enc.Encode(job{i, v, only})
+		l := 16
+		if len(levels) == 1 {
+			l = levels[0]
+		} else if len(levels) > 1 {
+			l = levels[i]
+		}
+		_ = enc.Encode(job{i, v, only, l})
 	}
 	res := corpus.Run(e.bin, nil, []byte(in.String()), nil, e.pkg.Dir, 10*time.Minute)
 	if res.Err != nil {
@@ -624,7 +662,6 @@ func (e *engine) judgeDocs(cases []Case, docs [][]byte, msgs []string) []string 
 			msgs[ci] = "inconclusive: position has no usable benign rendering"
 			continue
 		}
-		v := cs.V.Go()
 		ts, err := html5.Tokenize(docs[ci])
 		if err != nil {
 			msgs[ci] = "tokenizer error: " + err.Error()
@@ -678,7 +715,7 @@ func (e *engine) judgeDocs(cases []Case, docs [][]byte, msgs []string) []string 
 				break
 			}
 			if p.Want != nil {
-				w, txt, err := want(p.Want[di], v)
+				w, txt, err := want(p.Want[di], cs.V)
 				if err != nil {
 					msgs[ci] = "inconclusive: " + err.Error()
 					break
@@ -763,6 +800,9 @@ var basePositions = map[string][]string{
 	"funccall_then_js": {"jsonstring_attr", "funccall_component"}, "script_component_then_js": {"jsonstring_attr", "script_component"},
 	"jsonscript_then_js": {"jsonstring_attr", "jsonscript"}, "bare_then_js": {"jsonstring_attr", "bare"},
 	"js_sandwich": {"jsonstring_attr", "funccall_component", "script_component"},
+	"split2_all":  {"split_sq2", "split_dq2", "split_bt2", "split_bare2"}, "split3_all": {"split_sq3", "split_dq3", "split_bt3"},
+	"adj_bt_brace_after": {"bt"}, "adj_bt_dollar_before": {"bt"}, "adj_sq": {"sq"}, "adj_dq": {"dq"}, "adj_bt": {"bt"},
+	"lc_sq": {"sq", "bare"}, "lc_dq": {"dq", "bare"}, "lc_sq_parity": {"sq"}, "lc_dq_parity": {"dq"}, "ml_bt": {"bt", "bare"}, "scriptw_component": {"script_component"},
 }
 
 // shrink canonicalises a failing case deterministically: elementary position
@@ -822,7 +862,7 @@ func (e *engine) shrink(cs Case) (Case, string) {
 		}
 	}
 	leafShaped := cs.V.Shape != "json" && cs.V.Shape != "int"
-	if leafShaped {
+	if leafShaped && len(cs.V.Cuts) == 0 {
 		cands = nil
 		for _, sh := range []string{"str", "mapkey", "mapval", "arr"} {
 			if sh == cs.V.Shape {
@@ -835,17 +875,32 @@ func (e *engine) shrink(cs Case) (Case, string) {
 	for round := 0; leafShaped && round < 200; round++ {
 		s := cs.V.LeafString()
 		cands = nil
-		add := func(x string) { cands = append(cands, Case{Pos: cs.Pos, V: MkSpec(cs.V.Shape, x)}) }
-		for w := len(s) / 2; w >= 1; w /= 2 {
+		// del removes s[i:i+w]; cut points behind the removed bytes move with the text
+		del := func(i, w int) {
+			sp := MkSpec(cs.V.Shape, s[:i]+s[i+w:])
+			for _, ct := range cs.V.Cuts {
+				if ct > i {
+					ct = max(i, ct-w)
+				}
+				if !cutOK(sp.LeafString(), ct) {
+					return
+				}
+				sp.Cuts = append(sp.Cuts, ct)
+			}
+			cands = append(cands, Case{Pos: cs.Pos, V: sp})
+		}
+		for w := max(1, len(s)/2); w >= 1 && len(s) > 0; w /= 2 {
 			for i := 0; i+w <= len(s); i += w {
-				add(s[:i] + s[i+w:])
+				del(i, w)
 			}
 		}
 		if !first(cands) {
 			cands = nil
 			for i := 0; i < len(s); i++ {
 				if s[i] != 'a' && len(s) > 1 {
-					add(s[:i] + "a" + s[i+1:])
+					sp := MkSpec(cs.V.Shape, s[:i]+"a"+s[i+1:])
+					sp.Cuts = cs.V.Cuts
+					cands = append(cands, Case{Pos: cs.Pos, V: sp})
 				}
 			}
 			if !first(cands) {
@@ -857,8 +912,33 @@ func (e *engine) shrink(cs Case) (Case, string) {
 	return cs, msg
 }
 
+// cutOK: a string is not cut inside a well-formed multi-byte character. The
+// pieces are values in their own right; halves of one character would be two
+// invalid strings that only become e.g. U+2028 again in the browser's decoder.
+func cutOK(s string, ct int) bool {
+	for i := 0; i < len(s) && i < ct; {
+		r, w := utf8.DecodeRuneInString(s[i:])
+		if (r != utf8.RuneError || w > 1) && ct < i+w {
+			return false
+		}
+		i += w
+	}
+	return true
+}
+
+func cutNote(sp Spec) string {
+	if len(sp.Cuts) == 0 {
+		return ""
+	}
+	return fmt.Sprintf(" given as the pieces %q", sp.Pieces(len(sp.Cuts)+1))
+}
+
 func key(cs Case) string {
-	return cs.Pos + " " + cs.V.Shape + " " + strconv.Quote(cs.V.LeafString())
+	k := cs.Pos + " " + cs.V.Shape + " " + strconv.Quote(cs.V.LeafString())
+	if len(cs.V.Cuts) > 0 {
+		k += fmt.Sprintf(" cut at %v", cs.V.Cuts)
+	}
+	return k
 }
 
 // ---------------------------------------------------------------- values
@@ -896,13 +976,28 @@ var intLeaves = []string{"0", "1", "-1", "42", "2147483647", "-2147483648", "429
 // ---------------------------------------------------------------- Run
 
 func Run(c *core.Ctx) {
-	c.Rule = "cases = (JavaScript position, Go value): one compiled templ component per position ({{ v }} bare / in '…' \"…\" `…` literals / combinations in one script, script templates as component and in on* attributes, templ.JSFuncCall as component / on* / hx-on attribute, templ.JSONScript, JSFuncCall function names) rendered with the value; values = shape(leaf): leaf strings from every byte, code points U+0080-U+07FF + boundary list, all strings of length<=3 (quick) / <=4 (thorough) over a 21-symbol JavaScript/HTML metacharacter alphabet, JS-injection vectors with single-edit mutations, seeded random strings; shapes = plain string, named string, []any, []string, map value, map key, map[string]string, nested maps/slices, struct, JSON literals (numbers incl. -0, 1e308, +-2^53, bools, null, nested containers, hostile keys), int64; non-trivial = the leaf contains a byte the encoders must transform (quote, backslash, <>&+/$, control, U+2028/9, invalid UTF-8) or the value is not a plain string; distinct by (position, shape, leaf)"
+	c.Rule = "cases = (JavaScript position, Go value): one compiled templ component per position, each evaluated unit decided by V8 against the value's JSON (or the original string inside literals). Positions: {{ v }} bare / in '…' \"…\" `…` literals / combinations; script templates and templ.JSFuncCall as component and in on*/hx-on attributes; templ.JSONScript; templ.JSONString in a data attribute alone and combined with every other API in one render (both orders); JSFuncCall function names; static JavaScript that stresses the parser's quote state (escaped quotes of each kind, escaped backslash before the closing quote, other quote kinds inside a literal, comments with quotes, ${} holes and nested template literals, backslash line continuations in '…' and \"…\", multi-line template literals); two and three ADJACENT interpolations in each literal kind and bare, fed the pieces of one string cut at every character boundary (short strings) or at seeded cuts; a value directly before/after static text that would complete ${, </script, <!-- or an escape with it; every literal / quote-state / multi-line position a second time from a file with CRLF line endings. Values = shape(leaf): leaf strings from every byte, code points U+0080-U+07FF + boundary list, all strings of length<=3 (quick) / <=4 (thorough) over a 21-symbol JavaScript/HTML metacharacter alphabet, JS-injection vectors with single-edit mutations, seeded random strings, 4-20 KB strings; shapes = plain string, named string, []any, []string, map value, map key, map[string]string, nested maps/slices, struct, JSON literals (numbers incl. -0, 1e308, +-2^53, bools, null, nested containers, hostile keys), int64, and pre-encoded JSON: json.RawMessage (compact, indented, bare string), a json.Marshaler, RawMessage inside struct/map/slice, with the leaf inside strings and <, >, &, U+2028/9 left raw. Sampling: elementary positions get every value; composite positions every vector, shaped vector and non-string plus every 4th (API combinations 8th, CRLF spellings 8th/16th) other value. non-trivial = the leaf contains a byte the encoders must transform (quote, backslash, <>&+/$, control, U+2028/9, invalid UTF-8) or the value is not a plain string; distinct by (position, shape, leaf, cuts)"
 	c.Assume("V8 (rogchap.com/v8go v0.9.0) evaluates the emitted JavaScript as a browser would; golang.org/x/net/html tokenizes as a browser would; each script element / on* attribute is evaluated in a fresh context after a prelude defining the recording sink functions and the function definitions emitted earlier in the same document")
 	c.Assume("numbers are compared as float64 and integers beyond +-2^53 are not generated; strings are compared after replacing invalid UTF-8 by U+FFFD and collapsing U+FFFD runs; templ.JSExpression and JSUnsafeFuncCall are documented trusted code and excluded; a raw U+2028/U+2029 inside a quoted literal is treated as ending it (pre-ES2019 engines)")
 	e := build(c)
 	defer e.pkg.Close()
 	c.Set("positions_compiled", len(positions))
 	nqs, napi := 0, 0
+	c.Set("positions_crlf_spellings", len(crlfList)+1)
+	nsplit, nadj, nlc := 0, 0, 0
+	for _, p := range positions {
+		switch {
+		case nPieces(p.Name) > 0:
+			nsplit++
+		case strings.HasPrefix(p.Name, "adj_"):
+			nadj++
+		case strings.HasPrefix(p.Name, "lc_") || strings.HasPrefix(p.Name, "ml_"):
+			nlc++
+		}
+	}
+	c.Set("positions_adjacent_interpolations", nsplit)
+	c.Set("positions_value_next_to_dangerous_static_text", nadj)
+	c.Set("positions_line_continuation_or_multiline_literal", nlc)
 	for _, p := range positions {
 		if strings.HasPrefix(p.Name, "qs_") || p.Name == "quote_state" || p.Name == "after_comments" {
 			nqs++
@@ -927,7 +1022,7 @@ func Run(c *core.Ctx) {
 			r.Leaf = strconv.Quote(cs.V.LeafString())
 		}
 		p := positions[posIndex(r.Pos)]
-		c.Violate(key(r), fmt.Sprintf("position %s (%s) with %s value %s: %s", r.Pos, strings.Join(strings.Fields(p.Body), " "), r.V.Shape, r.Leaf, m2), r)
+		c.Violate(key(r), fmt.Sprintf("position %s (%s) with %s value %s%s: %s", r.Pos, strings.Join(strings.Fields(p.Body), " "), r.V.Shape, r.Leaf, cutNote(r.V), m2), r)
 	}
 
 	for _, p := range positions {
@@ -950,7 +1045,7 @@ func Run(c *core.Ctx) {
 		} else if m != "" {
 			cs.Leaf = strconv.Quote(cs.V.LeafString())
 			p := positions[posIndex(cs.Pos)]
-			c.Violate(key(cs), fmt.Sprintf("position %s (%s) with %s value %s: %s", cs.Pos, strings.Join(strings.Fields(p.Body), " "), cs.V.Shape, cs.Leaf, m), cs)
+			c.Violate(key(cs), fmt.Sprintf("position %s (%s) with %s value %s%s: %s", cs.Pos, strings.Join(strings.Fields(p.Body), " "), cs.V.Shape, cs.Leaf, cutNote(cs.V), m), cs)
 		}
 		return
 	}
@@ -958,47 +1053,108 @@ func Run(c *core.Ctx) {
 	// ---- values
 	rnd := c.Rand("values")
 	fams := c01.Families(rnd, jsAlphabet, jsVectors, c.Pick(3, 4), c.Pick(3000, 60000), c.Pick(3000, 60000))
+	// vals[i] reaches the positions whose sampling class (see rate) is <= levels[i]
 	var vals []Spec
+	var levels []int
 	var leaves []string
-	// composite positions exercise the same encoders as the elementary ones (their
-	// point is the parser's quote state and argument separators): they get every
-	// vector / shaped vector / non-string value and every 4th of the other values.
-	everywhere := map[int]bool{}
+	add := func(sp Spec, level int) { vals, levels = append(vals, sp), append(levels, level) }
+	sampled := func(i int) int {
+		switch {
+		case i%16 == 0:
+			return 16
+		case i%8 == 0:
+			return 8
+		case i%4 == 0:
+			return 4
+		}
+		return 1
+	}
 	for _, f := range fams {
 		c.Set("leaf_strings_"+f.Name, len(f.Strs))
 		for _, s := range f.Strs {
-			if f.Name == "vectors" || len(vals)%4 == 0 {
-				everywhere[len(vals)] = true
+			if f.Name == "vectors" {
+				add(MkSpec("str", s), 16)
+			} else {
+				add(MkSpec("str", s), sampled(len(vals)))
 			}
-			vals = append(vals, MkSpec("str", s))
 		}
 		if f.Name != "exhaustive" && f.Name != "code_points" {
 			leaves = append(leaves, f.Strs...)
 		}
 	}
 	nStr := len(vals)
+	// cut strings for the adjacent-interpolation positions: every interior cut of the
+	// bounded-exhaustive strings and of short vectors, seeded cuts of the other sampled strings
+	// Cuts never fall inside a well-formed multi-byte character (see cutOK).
+	crnd := c.Rand("cuts")
+	for i := 0; i < nStr; i++ {
+		s := vals[i].LeafString()
+		if len(s) < 2 || (levels[i] < 4 && len(s) > 3) || len(s) > 600 {
+			continue
+		}
+		lvl := 1
+		if levels[i] == 16 && len(s) > 3 {
+			lvl = 16 // vector-derived: also to the elementary split positions
+		}
+		split := func(cuts ...int) {
+			for _, ct := range cuts {
+				if !cutOK(s, ct) {
+					return
+				}
+			}
+			add(MkSplit(s, cuts...), lvl)
+		}
+		if len(s) <= 12 {
+			for ct := 1; ct < len(s); ct++ {
+				split(ct)
+			}
+		} else {
+			for k := 0; k < 3; k++ {
+				split(1 + crnd.Intn(len(s)-1))
+			}
+		}
+		if len(s) == 3 {
+			split(1, 2)
+		} else if len(s) > 3 {
+			for k := 0; k < 2; k++ {
+				a := 1 + crnd.Intn(len(s)-2)
+				split(a, a+1+crnd.Intn(len(s)-a-1))
+			}
+		}
+	}
+	nSplit := len(vals) - nStr
 	// shaped values: every vector with every shape, plus a seeded sample of the other leaves
 	shapes := []string{"named", "arr", "strslice", "mapval", "mapkey", "mapss", "nested", "struct"}
+	nBefore := len(vals)
 	for _, s := range jsVectors {
 		for _, sh := range shapes {
-			everywhere[len(vals)] = true
-			vals = append(vals, MkSpec(sh, s))
+			add(MkSpec(sh, s), 4)
 		}
 	}
 	for i, n := 0, c.Pick(2500, 50000); i < n; i++ {
-		everywhere[len(vals)] = i%4 == 0
-		vals = append(vals, MkSpec(shapes[rnd.Intn(len(shapes))], leaves[rnd.Intn(len(leaves))]))
+		add(MkSpec(shapes[rnd.Intn(len(shapes))], leaves[rnd.Intn(len(leaves))]), min(4, sampled(i)))
 	}
 	for _, s := range jsonLeaves {
-		everywhere[len(vals)] = true
-		vals = append(vals, MkSpec("json", s))
+		add(MkSpec("json", s), 4)
 	}
 	for _, s := range intLeaves {
-		everywhere[len(vals)] = true
-		vals = append(vals, MkSpec("int", s))
+		add(MkSpec("int", s), 4)
+	}
+	// pre-encoded JSON (json.RawMessage / json.Marshaler) with the leaf inside strings, not HTML-escaped
+	nRaw := len(vals)
+	for _, s := range jsVectors {
+		for _, sh := range RawShapes {
+			add(MkSpec(sh, s), 4)
+		}
+	}
+	for i, n := 0, c.Pick(1200, 25000); i < n; i++ {
+		add(MkSpec(RawShapes[rnd.Intn(len(RawShapes))], leaves[rnd.Intn(len(leaves))]), 1)
 	}
 	c.Set("values_plain_strings", nStr)
-	c.Set("values_shaped_or_non_string", len(vals)-nStr)
+	c.Set("values_cut_strings_for_adjacent_interpolations", nSplit)
+	c.Set("values_shaped_or_non_string", len(vals)-nBefore)
+	c.Set("values_pre_encoded_json_shapes", len(vals)-nRaw)
+	c.Set("shapes", len(Shapes))
 	c.Set("values_total", len(vals))
 
 	// ---- run: batches of values x all positions
@@ -1020,7 +1176,7 @@ func Run(c *core.Ctx) {
 			defer wg.Done()
 			defer func() { <-sem }()
 			lo, hi := b*batch, min((b+1)*batch, len(vals))
-			docs, errs := e.render(vals[lo:hi], "")
+			docs, errs := e.render(vals[lo:hi], "", levels[lo:hi]...)
 			if docs == nil {
 				return
 			}
@@ -1033,8 +1189,9 @@ func Run(c *core.Ctx) {
 					if positions[pi].Want == nil && v.Shape != "str" {
 						continue // function-name positions take strings only
 					}
-					if _, composite := basePositions[positions[pi].Name]; composite && !everywhere[lo+i] {
-						continue
+					np := nPieces(positions[pi].Name)
+					if rate(positions[pi].Name) > levels[lo+i] || (np == 0) != (len(v.Cuts) == 0) || (np > 0 && len(v.Cuts) != np-1) {
+						continue // same rule as in the driver
 					}
 					if e.broken[positions[pi].Name] != "" {
 						continue
